@@ -130,6 +130,18 @@ Section C15.
               visible p w = true /\ In w (created_of pre) /\ ~ In w (deliveries pre).
   Proof. exact (round_fair_unchained p WF BF fx). Qed.
 
+  (** ... and everything such a round fills is outstanding at its entry: one idle round of the LTS is
+      one [idle] transition of C02's promise table with chosen = [deliveries mid] (the handler's half
+      of the joint executor + handler model; the executor's half — C02's poll creating exactly the
+      LTS' [LCreate]s and taking exactly its [LConsume]s — is not proved). *)
+  Theorem C15_idle_round_deliveries_outstanding : forall pre mid s,
+    no_chaining p ->
+    run fx p init (pre ++ LIdleEnter :: mid ++ [LIdleExit]) = Some s -> ~ In LIdleExit mid ->
+    deliveries mid <> [] /\
+    forall w, In w (deliveries mid) ->
+      visible p w = true /\ In w (created_of pre) /\ ~ In w (deliveries pre).
+  Proof. exact (round_deliveries_outstanding p WF BF fx). Qed.
+
   (** With chaining a round may fill only inner promises (see the refutation below); the executor
       then calls the handler again, and altogether never more often than the request has promises. *)
   Theorem C15_idle_rounds_bounded : forall tr s,
@@ -242,6 +254,7 @@ Print Assumptions C15_subscription_events_isolated.
 Print Assumptions C15_subscription_batch_leak_refuted_before_fix.
 Print Assumptions C15_idle_round_fulfils.
 Print Assumptions C15_idle_round_fair_unchained.
+Print Assumptions C15_idle_round_deliveries_outstanding.
 Print Assumptions C15_idle_rounds_bounded.
 Print Assumptions C15_round_fairness_refuted_with_chaining.
 Print Assumptions C15_handler_record_is_fair_scheduler.
